@@ -73,10 +73,10 @@ def model_check(module, cfg, workers=16, timeout=1800, extra=()):
 _NOTE = re.compile(r'<<(\d+), "([^"]+)", "([^"]+)">>')
 
 
-def validate_trace(ndjson_path, timeout=3600):
-    """Runs GradFlowTrace on the batch.  Returns dict(last, total, notes=[(line, tag, name)], stats)."""
-    rc, out, wall = run_tlc("GradFlowTrace.tla", "GradFlowTrace.cfg", workers=1,
-                            env={"GF_TRACE": os.path.abspath(ndjson_path)}, timeout=timeout)
+def validate_trace(ndjson_path, timeout=3600, module="GradFlowTrace.tla", cfg="GradFlowTrace.cfg", envvar="GF_TRACE"):
+    """Runs a trace spec on the batch.  Returns dict(last, total, notes=[(line, tag, name)], stats)."""
+    rc, out, wall = run_tlc(module, cfg, workers=1,
+                            env={envvar: os.path.abspath(ndjson_path)}, timeout=timeout)
     m = re.search(r'<<"GFLAST", (\d+), (\d+)>>', out)
     if m is None:
         raise TLCFailure("trace validation did not finish (rc=%s):\n%s" % (rc, out[-4000:]))
